@@ -25,6 +25,22 @@ type idxWrite struct {
 	Kind  string // "insert" | "delete" | "assign"
 	Pos   token.Pos
 	Ins   ssa.Instruction
+	Via   ssa.CallInstruction // the write is in a new helper: the call (in a reviewed function's region) it is done for
+}
+
+// in runs f with the write's call context: inside a new helper shared by several index
+// updates (`linkKey(g.deps, from, to)`, `linkKey(g.revDeps, to, from)`), the helper's
+// parameters stand for the arguments of that call.
+func (wr idxWrite) in(f func()) {
+	if wr.Via == nil {
+		f()
+		return
+	}
+	callee := wr.Via.Common().StaticCallee()
+	saved := sliceCtx
+	sliceCtx = append(append([]sliceFrame{}, saved...), sliceFrame{wr.Via, callee, map[ssa.Value]bool{}})
+	defer func() { sliceCtx = saved }()
+	f()
 }
 
 // indexWrites finds every mutation of a SymbolGraph index: map inserts and deletes on a
@@ -53,32 +69,51 @@ func (w *World) indexWrites() []idxWrite {
 		if fn.Pkg == nil || !strings.HasPrefix(fn.Pkg.Pkg.Path(), modPath) {
 			continue
 		}
-		allInstrs(fn, false, func(f *ssa.Function, _ *ssa.BasicBlock, _ int, ins ssa.Instruction) {
-			switch x := ins.(type) {
-			case *ssa.MapUpdate:
-				if fld := fieldOfMap(x.Map); fld != "" {
-					out = append(out, idxWrite{fnShort(f), fld, "insert", x.Pos(), ins})
+		// a write inside a new helper is one write per call of the helper
+		ctxs := []ssa.CallInstruction{nil}
+		if w.isNewFn(fn) && fn.Parent() == nil {
+			if sites := w.callSitesOfNew(fn); len(sites) > 0 {
+				ctxs = sites
+			}
+		}
+		for _, via := range ctxs {
+			via := via
+			allInstrsLocal(fn, false, func(f *ssa.Function, _ *ssa.BasicBlock, _ int, ins ssa.Instruction) {
+				host := fnShort(f)
+				if via != nil {
+					host = fnShort(via.Parent())
 				}
-			case *ssa.Call:
-				if calleeName(x) == "builtin.delete" && len(x.Call.Args) == 2 {
-					if fld := fieldOfMap(x.Call.Args[0]); fld != "" {
-						out = append(out, idxWrite{fnShort(f), fld, "delete", x.Pos(), ins})
-					}
+				add := func(fld, kind string, pos token.Pos) {
+					out = append(out, idxWrite{host, fld, kind, pos, ins, via})
 				}
-			case *ssa.Store:
-				if fa, ok := x.Addr.(*ssa.FieldAddr); ok {
-					if v := structFieldVar(fa.X.Type(), fa.Field); v != nil {
-						if own, ok := derefNamedOwner(v, sg); ok && own {
-							for _, ix := range graphIndices {
-								if v.Name() == ix {
-									out = append(out, idxWrite{fnShort(f), ix, "assign", x.Pos(), ins})
+				idxWrite{Via: via}.in(func() {
+					switch x := ins.(type) {
+					case *ssa.MapUpdate:
+						if fld := fieldOfMap(x.Map); fld != "" {
+							add(fld, "insert", x.Pos())
+						}
+					case *ssa.Call:
+						if calleeName(x) == "builtin.delete" && len(x.Call.Args) == 2 {
+							if fld := fieldOfMap(x.Call.Args[0]); fld != "" {
+								add(fld, "delete", x.Pos())
+							}
+						}
+					case *ssa.Store:
+						if fa, ok := x.Addr.(*ssa.FieldAddr); ok {
+							if v := structFieldVar(fa.X.Type(), fa.Field); v != nil {
+								if own, ok := derefNamedOwner(v, sg); ok && own {
+									for _, ix := range graphIndices {
+										if v.Name() == ix {
+											add(ix, "assign", x.Pos())
+										}
+									}
 								}
 							}
 						}
 					}
-				}
-			}
-		})
+				})
+			})
+		}
 	}
 	sort.Slice(out, func(i, j int) bool { return out[i].Pos < out[j].Pos })
 	return out
@@ -163,54 +198,56 @@ func checkC17(c *Ctx, r *Report) {
 			}
 			mu := wr.Ins.(*ssa.MapUpdate)
 			sites = append(sites, w.pos(wr.Pos))
-			kp := keyParam(mu.Key)
-			mp := keyParam(mu.Map)
-			_, innerMap := mu.Map.Type().Underlying().(*types.Map)
-			_ = innerMap
-			isOuter := false
-			if mt, ok := mu.Map.Type().Underlying().(*types.Map); ok {
-				_, isOuter = mt.Elem().Underlying().(*types.Map)
-			}
-			switch wr.Field {
-			case "deps":
-				if isOuter {
-					if !kp["from"] || kp["to"] {
-						viol = fmt.Sprintf("%s: deps is not keyed by the source", w.pos(wr.Pos))
+			wr.in(func() {
+				kp := keyParam(mu.Key)
+				mp := keyParam(mu.Map)
+				_, innerMap := mu.Map.Type().Underlying().(*types.Map)
+				_ = innerMap
+				isOuter := false
+				if mt, ok := mu.Map.Type().Underlying().(*types.Map); ok {
+					_, isOuter = mt.Elem().Underlying().(*types.Map)
+				}
+				switch wr.Field {
+				case "deps":
+					if isOuter {
+						if !kp["from"] || kp["to"] {
+							viol = fmt.Sprintf("%s: deps is not keyed by the source", w.pos(wr.Pos))
+						}
+					} else {
+						got["deps"] = true
+						if !kp["to"] || kp["from"] || !mp["from"] {
+							viol = fmt.Sprintf("%s: deps[from] does not record the target `to`", w.pos(wr.Pos))
+						}
 					}
-				} else {
-					got["deps"] = true
-					if !kp["to"] || kp["from"] || !mp["from"] {
-						viol = fmt.Sprintf("%s: deps[from] does not record the target `to`", w.pos(wr.Pos))
+				case "revDeps":
+					if isOuter {
+						if !kp["to"] || kp["from"] {
+							viol = fmt.Sprintf("%s: revDeps is not keyed by the target", w.pos(wr.Pos))
+						}
+					} else {
+						got["revDeps"] = true
+						if !kp["from"] || kp["to"] || !mp["to"] {
+							viol = fmt.Sprintf("%s: revDeps[to] does not record the source `from`", w.pos(wr.Pos))
+						}
+					}
+				case "edges":
+					if isOuter {
+						if !kp["from"] || kp["to"] {
+							viol = fmt.Sprintf("%s: edges is not keyed by the source", w.pos(wr.Pos))
+						}
+					} else {
+						got["edges"] = true
+						ka := sliceOf(mu.Key)
+						if !ka.Calls[pkgSdg+".edgeMapKey"] || !kp["kind"] || !kp["to"] {
+							viol = fmt.Sprintf("%s: the descriptor is not stored under edgeMapKey(kind, to)", w.pos(wr.Pos))
+						}
+						va := keyParam(mu.Value)
+						if !va["from"] || !va["to"] || !va["kind"] {
+							viol = fmt.Sprintf("%s: the stored descriptor is not built from (from, to, kind)", w.pos(wr.Pos))
+						}
 					}
 				}
-			case "revDeps":
-				if isOuter {
-					if !kp["to"] || kp["from"] {
-						viol = fmt.Sprintf("%s: revDeps is not keyed by the target", w.pos(wr.Pos))
-					}
-				} else {
-					got["revDeps"] = true
-					if !kp["from"] || kp["to"] || !mp["to"] {
-						viol = fmt.Sprintf("%s: revDeps[to] does not record the source `from`", w.pos(wr.Pos))
-					}
-				}
-			case "edges":
-				if isOuter {
-					if !kp["from"] || kp["to"] {
-						viol = fmt.Sprintf("%s: edges is not keyed by the source", w.pos(wr.Pos))
-					}
-				} else {
-					got["edges"] = true
-					ka := sliceOf(mu.Key)
-					if !ka.Calls[pkgSdg+".edgeMapKey"] || !kp["kind"] || !kp["to"] {
-						viol = fmt.Sprintf("%s: the descriptor is not stored under edgeMapKey(kind, to)", w.pos(wr.Pos))
-					}
-					va := keyParam(mu.Value)
-					if !va["from"] || !va["to"] || !va["kind"] {
-						viol = fmt.Sprintf("%s: the stored descriptor is not built from (from, to, kind)", w.pos(wr.Pos))
-					}
-				}
-			}
+			})
 		}
 		for _, ix := range []string{"edges", "deps", "revDeps"} {
 			if !got[ix] {
@@ -232,7 +269,18 @@ func checkC17(c *Ctx, r *Report) {
 				}
 			}
 			s2 = append(s2, w.pos(wr.Pos))
-			seen, _ := reachAvoiding(fi.SSA, map[*ssa.BasicBlock]bool{wr.Ins.Block(): true}, nil)
+			at := wr.Ins.Block()
+			if wr.Via != nil {
+				// done by a new helper: every call of the helper reaches the write, and the call is on every path
+				hseen, _ := reachAvoiding(wr.Ins.Parent(), map[*ssa.BasicBlock]bool{at: true}, nil)
+				for _, ex := range exitsOf(wr.Ins.Parent()) {
+					if ex.Ret != nil && hseen[ex.Ret.Block()] {
+						v2 = fmt.Sprintf("%s: %s can return without having recorded %s", w.pos(retPos(ex)), fnReal(wr.Ins.Parent()), wr.Field)
+					}
+				}
+				at = wr.Via.Block()
+			}
+			seen, _ := reachAvoiding(fi.SSA, map[*ssa.BasicBlock]bool{at: true}, nil)
 			for _, ex := range exitsOf(fi.SSA) {
 				if ex.Ret != nil && seen[ex.Ret.Block()] {
 					v2 = fmt.Sprintf("%s: AddEdge can return without having recorded %s", w.pos(retPos(ex)), wr.Field)
@@ -251,32 +299,34 @@ func checkC17(c *Ctx, r *Report) {
 			}
 			cl := wr.Ins.(*ssa.Call)
 			sites = append(sites, w.pos(wr.Pos))
-			kp := keyParam(cl.Call.Args[1])
-			mp := keyParam(cl.Call.Args[0])
-			isOuter := false
-			if mt, ok := cl.Call.Args[0].Type().Underlying().(*types.Map); ok {
-				_, isOuter = mt.Elem().Underlying().(*types.Map)
-			}
-			if isOuter {
-				continue // dropping an emptied inner map
-			}
-			switch wr.Field {
-			case "deps":
-				got["deps"] = true
-				if !kp["to"] || kp["from"] || !mp["from"] {
-					viol = fmt.Sprintf("%s: RemoveEdge does not delete `to` from deps[from]", w.pos(wr.Pos))
+			wr.in(func() {
+				kp := keyParam(cl.Call.Args[1])
+				mp := keyParam(cl.Call.Args[0])
+				isOuter := false
+				if mt, ok := cl.Call.Args[0].Type().Underlying().(*types.Map); ok {
+					_, isOuter = mt.Elem().Underlying().(*types.Map)
 				}
-			case "revDeps":
-				got["revDeps"] = true
-				if !kp["from"] || kp["to"] || !mp["to"] {
-					viol = fmt.Sprintf("%s: RemoveEdge does not delete `from` from revDeps[to]", w.pos(wr.Pos))
+				if isOuter {
+					return // dropping an emptied inner map
 				}
-			case "edges":
-				got["edges"] = true
-				if !mp["from"] {
-					viol = fmt.Sprintf("%s: RemoveEdge does not delete from edges[from]", w.pos(wr.Pos))
+				switch wr.Field {
+				case "deps":
+					got["deps"] = true
+					if !kp["to"] || kp["from"] || !mp["from"] {
+						viol = fmt.Sprintf("%s: RemoveEdge does not delete `to` from deps[from]", w.pos(wr.Pos))
+					}
+				case "revDeps":
+					got["revDeps"] = true
+					if !kp["from"] || kp["to"] || !mp["to"] {
+						viol = fmt.Sprintf("%s: RemoveEdge does not delete `from` from revDeps[to]", w.pos(wr.Pos))
+					}
+				case "edges":
+					got["edges"] = true
+					if !mp["from"] {
+						viol = fmt.Sprintf("%s: RemoveEdge does not delete from edges[from]", w.pos(wr.Pos))
+					}
 				}
-			}
+			})
 		}
 		for _, ix := range []string{"edges", "deps", "revDeps"} {
 			if !got[ix] {
